@@ -212,9 +212,9 @@ func init() {
 		ID: "C29",
 		Explanation: "Decides structural necessary conditions of 'cancellation never yields a wrong parse' on every generated parser package and the hand-written js parse loop: CANCEL: every loop that shifts tokens in a function taking a context polls ctx.Done(); every poll is governed by (sharedCounter & M) == 0 with M = 2^k-1 <= 0x1ff, and all sites of a package use the same mask (an equality+reset at one site is starved by increments at another). " +
 			"ERRFLOW: for every call of a function whose error may be ctx.Err() (computed as a fixpoint from `return ctx.Err()`), the error value reaches a return of the caller — it is neither discarded nor replaced by nil. " +
-			"Not decided: cancellation inside the lexer fetch, equality of events with an uncancelled parse (the poll branch only returns, which is checked by the shape of the select). ERRFLOW(must-return): in the generated ast.Parse wrappers a non-nil parser error (ctx.Err() included) is returned on every path from the err != nil test; no return with another error value is reachable. MONOTONE(poll-counter): the counter whose low bits trigger the poll is only ever advanced by a positive constant; it (or the session holding it) is re-initialised only outside every loop. SOURCE(handler-identity): the generated ast.Parse passes the caller's ErrorHandler to Parser.Init unchanged.",
-		Rules: []string{"CANCEL", "ERRFLOW", "ERRFLOW(must-return)", "MONOTONE(poll-counter)", "SOURCE(handler-identity)"},
-		Run:   func(c *Ctx) { ruleCANCEL(c); ruleERRFLOW(c); ruleERRMUST(c); rulePOLLCOUNTER(c); ruleHANDLERID(c) },
+			"Not decided: cancellation inside the lexer fetch, equality of events with an uncancelled parse (the poll branch only returns, which is checked by the shape of the select). ERRFLOW(must-return): in the generated ast.Parse wrappers a non-nil parser error (ctx.Err() included) is returned on every path from the err != nil test; no return with another error value is reachable. MONOTONE(poll-counter): the counter whose low bits trigger the poll is only ever advanced by a positive constant; it (or the session holding it) is re-initialised only outside every loop. SOURCE(handler-identity): the generated ast.Parse passes the caller's ErrorHandler to Parser.Init unchanged. USE(ctx.Err): in the parser and ast packages every value of ctx.Err() only travels to a return (it never decides whether events are reported or recovery goes on). ERRFLOW also requires that no other result of a call that may return ctx.Err() is used before the error was found to be nil, unless every return reachable from that use hands the error back.",
+		Rules: []string{"CANCEL", "ERRFLOW", "ERRFLOW(must-return)", "MONOTONE(poll-counter)", "SOURCE(handler-identity)", "USE(ctx.Err)"},
+		Run:   func(c *Ctx) { ruleCANCEL(c); ruleERRFLOW(c); ruleERRMUST(c); rulePOLLCOUNTER(c); ruleHANDLERID(c); ruleCTXERRUSE(c) },
 	})
 }
 
@@ -410,7 +410,7 @@ func init() {
 	register(&Property{
 		ID: "C08",
 		Explanation: "Decides structural necessary conditions of 'runtime lookahead decisions pick the alternative whose predicates hold': TMPL(negation): in go_parser.go.tmpl every emitted copy of a decision list applies {{if .Predicate.Negated}}!{{end}} in both the cancellable and the plain variant (template tree analysis, so un-instantiated branches are covered). SIBLING(decision-list): in the committed js and test parsers the applyRule and lookaheadRule copies of each lookahead rule have the same tests, polarities and targets. " +
-			"SHIFTWIDTH: the memoization key widens before shifting (distinct predicates at one offset never share a cached answer). AGREE(memo-key): the key identifies the lookahead nonterminal by its entry state, which minimize never merges, not by its final state, which it does. DTX(pickLookahead): for every sequence of 1..4 alternatives over {requires the predicate, requires its negation, independent} the picked alternative is the unique positive one, else the unique negated one, else none. DTX(ruleAction): a lookahead rule meeting an existing resolution rule extends that rule (planner.addRule(existing, new)); plain rules are reported as conflicts. ERRFLOW: a lookahead's error is never dropped (C29). Not decided: the ordering pass of newLookaheadRule (a DFS over runtime data pinned by lalr.TestLookahead). TMPL(negation) also covers the TypeScript and C++ parser templates.",
+			"SHIFTWIDTH: the memoization key widens before shifting (distinct predicates at one offset never share a cached answer). AGREE(memo-key): the key identifies the lookahead nonterminal by its entry state, which minimize never merges, not by its final state, which it does. DTX(pickLookahead): for every sequence of 1..4 alternatives over {requires the predicate, requires its negation, independent} the picked alternative is the unique positive one, else the unique negated one, else none. DTX(ruleAction): a lookahead rule meeting an existing resolution rule extends that rule (planner.addRule(existing, new)); plain rules are reported as conflicts. ERRFLOW: a lookahead's error is never dropped (C29). Not decided: the ordering pass of newLookaheadRule (a DFS over runtime data pinned by lalr.TestLookahead). TMPL(negation) also covers the TypeScript and C++ parser templates. ERRFLOW's check-first clause: a lookahead answer is not acted upon before its error was found to be nil.",
 		Rules: []string{"TMPL(negation)", "SIBLING(decision-list)", "SHIFTWIDTH", "AGREE(memo-key)", "DTX(pickLookahead)", "DTX(ruleAction)", "ERRFLOW"},
 		Run: func(c *Ctx) {
 			ruleRULEACTION(c)
